@@ -23,7 +23,12 @@ type ownSpec struct {
 	// takesOwnership: callees that always take ownership of the handle
 	// argument (success and error), with the reason.
 	takesOwnership map[string]string
-	depth          int
+	// listedTransfersOnly: passing the handle to a callee with an error
+	// result is NOT a transfer of ownership on success (streams handed to
+	// negotiation helpers stay ours); only takesOwnership entries, dynamic
+	// handler calls, stores, returns and releases count.
+	listedTransfersOnly bool
+	depth               int
 }
 
 type ownSummary struct {
@@ -175,7 +180,7 @@ func buildHandleSet(fn *ssa.Function, roots []ssa.Value, cells []ssa.Value) *han
 			if !ok {
 				return
 			}
-			if al, isAl := st.Addr.(*ssa.Alloc); isAl && !hs.cells[al] && hs.is(st.Val) {
+			if al, isAl := st.Addr.(*ssa.Alloc); isAl && !hs.cells[al] && hs.is(st.Val) && !isNamedResultCell(fn, al) {
 				// only local variable cells (not struct literals: those are heap owners)
 				if _, isStruct := al.Type().(*types.Pointer).Elem().Underlying().(*types.Struct); !isStruct {
 					hs.cells[al] = true
@@ -303,6 +308,11 @@ func (o *ownCtx) consumes(fn *ssa.Function, in ssa.Instruction, hs *handleSet, d
 		if reason, ok := o.spec.takesOwnership[k]; ok {
 			return true, "callee takes ownership: " + reason
 		}
+		if !cc.IsInvoke() && cc.StaticCallee() == nil {
+			if _, isBuiltin := cc.Value.(*ssa.Builtin); !isBuiltin {
+				return true, "handed to a dynamic callee (handler / callback)"
+			}
+		}
 		// callee without error result: plain transfer
 		sig := cc.Signature()
 		hasErr := sig.Results().Len() > 0 && types.Identical(sig.Results().At(sig.Results().Len()-1).Type(), types.Universe.Lookup("error").Type())
@@ -338,6 +348,9 @@ func (o *ownCtx) consumes(fn *ssa.Function, in ssa.Instruction, hs *handleSet, d
 			}
 			return false, ""
 		}
+		if o.spec.listedTransfersOnly {
+			return false, ""
+		}
 		for _, ik := range o.spec.ifaceReleasesOnError {
 			if keyMatch(k, ik) {
 				return true, "callee releases on error and owns on success (" + k + ")"
@@ -360,6 +373,9 @@ func (o *ownCtx) consumes(fn *ssa.Function, in ssa.Instruction, hs *handleSet, d
 // success (err == nil): ownership has moved to the callee / its result.
 func (o *ownCtx) transferEdges(fn *ssa.Function, hs *handleSet) EdgePred {
 	return func(b *ssa.BasicBlock, s int) bool {
+		if o.spec.listedTransfersOnly {
+			return false
+		}
 		i := ifOf(b)
 		if i == nil {
 			return false
@@ -409,13 +425,19 @@ func (o *ownCtx) transferEdges(fn *ssa.Function, hs *handleSet) EdgePred {
 func returnCarries(ret *ssa.Return, hs *handleSet) bool {
 	for i := range ret.Results {
 		v := ret.Results[i]
+		if u, ok := v.(*ssa.UnOp); ok && u.Op == token.MUL {
+			if al, isAl := u.X.(*ssa.Alloc); isAl && isNamedResultCell(ret.Parent(), al) {
+				// spilled named result: what was stored for this return
+				if lv := loadedValue(u); lv != nil {
+					if hs.is(lv) || hs.is(strip2(lv)) {
+						return true
+					}
+					continue
+				}
+			}
+		}
 		if hs.is(v) || hs.is(strip2(v)) {
 			return true
-		}
-		if u, ok := v.(*ssa.UnOp); ok && u.Op == token.MUL {
-			if lv := loadedValue(u); lv != nil && hs.is(lv) {
-				return true
-			}
 		}
 	}
 	// tail call handing the handle on: `return f(.., h, ..)` — every result
@@ -446,20 +468,26 @@ func returnCarries(ret *ssa.Return, hs *handleSet) bool {
 // by this function? exitClass: "all", "error", "success".
 func (o *ownCtx) held(fn *ssa.Function, hs *handleSet, from []ssa.Instruction, fromEdges []CFGEdge, exitClass string, extraCut EdgePred, loopHead ssa.Instruction, depth int) (string, int) {
 	nilEdge := edgeNil(func(v ssa.Value) bool { return hs.is(v) }, true)
-	// deferred conditional release: defer func(){ if err != nil { h.Done() } }()
-	deferErrRelease := false
+	if exitClass == "all" && errResultIndex(fn) >= 0 {
+		if w, n := o.held(fn, hs, from, fromEdges, "error", extraCut, loopHead, depth); w != "" {
+			return w, n
+		}
+		return o.held(fn, hs, from, fromEdges, "success", extraCut, loopHead, depth)
+	}
+	// deferred conditional release: defer func(){ if err != nil { h.Done() } }() — it covers the
+	// error exits it dominates (the Defer instruction acts as a separator for error exits only)
+	condDefers := map[ssa.Instruction]bool{}
 	for _, d := range findInstrs(fn, func(in ssa.Instruction) bool { _, ok := in.(*ssa.Defer); return ok }) {
 		df := d.(*ssa.Defer).Call.StaticCallee()
 		if df == nil || df.Blocks == nil || o.c.Parent(df) != fn {
 			continue
 		}
-		// closure releases a captured alias?
 		chs := o.closureHandle(fn, df, hs)
 		if chs == nil {
 			continue
 		}
 		if len(findInstrs(df, func(in ssa.Instruction) bool { return o.isRelease(in, chs) })) > 0 {
-			deferErrRelease = true
+			condDefers[d] = true
 		}
 	}
 	// `case ch <- h:` of a select: the edge into that case hands the handle on
@@ -490,6 +518,9 @@ func (o *ownCtx) held(fn *ssa.Function, hs *handleSet, from []ssa.Instruction, f
 	q := &Cut{Fn: fn, From: from, FromEdges: fromEdges,
 		EdgeCut: anyEdge(nilEdge, o.transferEdges(fn, hs), extraCut, selSend),
 		Sep: func(in ssa.Instruction) bool {
+			if exitClass == "error" && condDefers[in] {
+				return true
+			}
 			ok, why := o.consumes(fn, in, hs, depth)
 			if ok && os.Getenv("LP2P_DEBUG_OWN") == fnKey(fn) {
 				fmt.Printf("OWN sep in %s at %s: %s (%s)\n", fnKey(fn), o.c.Pos(instrPos(in)), describeInstr(in), why)
@@ -511,8 +542,8 @@ func (o *ownCtx) held(fn *ssa.Function, hs *handleSet, from []ssa.Instruction, f
 			if ei := errResultIndex(fn); ei >= 0 {
 				isErr = !isNilConst(retVal(ret, ei))
 			}
-			if isErr && deferErrRelease {
-				return false
+			if os.Getenv("LP2P_DEBUG_OWN") == fnKey(fn) {
+				fmt.Printf("OWN exit in %s at %s: isErr=%v class=%s val=%s\n", fnKey(fn), o.c.Pos(instrPos(ret)), isErr, exitClass, describeVal(retVal(ret, errResultIndex(fn))))
 			}
 			switch exitClass {
 			case "error":
@@ -849,4 +880,15 @@ func paramByName(fn *ssa.Function, name string) *ssa.Parameter {
 
 func inModule(f *ssa.Function) bool {
 	return f.Pkg != nil && strings.HasPrefix(f.Pkg.Pkg.Path()+"/", Mod)
+}
+
+// isNamedResultCell: the Alloc is the spill cell of a named result.
+func isNamedResultCell(fn *ssa.Function, al *ssa.Alloc) bool {
+	res := fn.Signature.Results()
+	for i := 0; i < res.Len(); i++ {
+		if n := res.At(i).Name(); n != "" && n != "_" && n == al.Comment {
+			return true
+		}
+	}
+	return false
 }
